@@ -241,7 +241,8 @@ def tie_hist(r):
 # ---- model-internal instances of the theorems (spec validation against the oracle)
 def spec_msg(r):
     m = r["model"]
-    return (r["refb"] == "-" or m.get("ref") == r["refb"]) and m.get("rt") == m.get("norm") and m.get("refdec") == m.get("norm")
+    # wfmsg: the premise msg_ok of T_enc holds of the generated value (theorems are not vacuous on the test domain)
+    return (r["refb"] == "-" or m.get("ref") == r["refb"]) and m.get("rt") == m.get("norm") and m.get("refdec") == m.get("norm") and m.get("wfmsg", "1") == "1"
 
 
 def spec_dec(r):
@@ -542,7 +543,7 @@ def fresh_suites(ctx, entries):
 
 def check_C01(ctx):
     return run_message_property(ctx, dict(
-        theorems=["C01_scalar_field", "C01_varint_readable", "C01_framing"],
+        theorems=["C01_scalar_field", "C01_varint_readable", "C01_framing", "C01_marshal_is_reference_encoding", "C01_total"],
         suites=lambda c: [_msg_suite(c, 2000, 60000)] + fresh_suites(c, [("msg", ["msg", c.seed + 11, _n(c, 1200, 30000), ".proto:"])]),
         prop={"msg": msg_flag("c01")}, tie={"msg": tie_bytes}, spec={"msg": spec_msg},
         nontrivial=nontrivial_any, shrink_flag="c01=bad", rule=MSG_RULE + "; oracle: proto.Unmarshal (dynamicpb) of the Marshal output compared with the value"))
@@ -558,7 +559,7 @@ def check_C03(ctx):
 
 def check_C06(ctx):
     return run_message_property(ctx, dict(
-        theorems=["C06_minimal_varint", "C06_minimal_tag", "C06_minimal_length", "C06_field"],
+        theorems=["C06_minimal_varint", "C06_minimal_tag", "C06_minimal_length", "C06_field", "C06_strong"],
         suites=lambda c: [_msg_suite(c, 2000, 60000)] + fresh_suites(c, [("msg", ["msg", c.seed + 13, _n(c, 1200, 30000), ".proto:"])]),
         prop={"msg": lambda r: r["impl"] != "PANIC" and r["flags"].get("c06") in ("ok", "na")}, tie={"msg": tie_bytes}, spec={"msg": spec_msg},
         nontrivial=nontrivial_any, shrink_flag="c06=bad",
@@ -665,7 +666,7 @@ def check_C12(ctx):
     level = "proof"
     if not model_available(ctx):
         return infra_failure(ctx, level)
-    ok, ob, problems = proof_status(ctx, ["C12_always_selection", "C12_boundary_optional_enum", "C12_checked_in_total"])
+    ok, ob, problems = proof_status(ctx, ["C12_always_selection", "C12_boundary_optional_enum", "C12_checked_in_total", "C12_encode_correct"])
     sch = fresh_set(ctx)
     bnd = {k: v[1]() for k, v in F.BOUNDARY.items()}
     res = fresh_driver(ctx)
@@ -766,7 +767,7 @@ def check_C12(ctx):
         return E.finish(ctx, level, trusted=KERNEL_TB)
     flt = fresh_filter(res)
     spec = dict(
-        theorems=["C12_always_selection", "C12_boundary_optional_enum", "C12_checked_in_total"],
+        theorems=["C12_always_selection", "C12_boundary_optional_enum", "C12_checked_in_total", "C12_encode_correct"],
         suites=lambda c: [("msg", ["msg", c.seed, _n(c, 2500, 40000), ".proto:"], res["driver"]), ("decv", ["decv", c.seed, _n(c, 1500, 20000), ".proto:"], res["driver"])],
         filter=flt,
         prop={"msg": lambda r: r["impl"] != "PANIC" and all(r["flags"].get(k) in ("ok", "na") for k in ("c01", "c03", "c06", "c08o", "c08r")),
